@@ -32,5 +32,7 @@ for p in "$@"; do
 done
 git -C /repo checkout -- .
 git -C /repo status --short | head -3
+# evidence written while the patch was applied describes the seeded tree: put the committed files back
+git -C /verif checkout -- evidence 2>/dev/null
 echo "RESULT $name demo_with=$with demo_without=$without suite=$suite checks:$results"
 rm -f /tmp/seed/with.$$ /tmp/seed/without.$$ /tmp/seed/suite.$$
